@@ -87,6 +87,12 @@ def rule_flow(ctx, rep, rid='R1'):
         T = Terms(inl(cad, b))
         rts = set(leaf for r in ret_terms(T, [0]) for _, leaf in symb.split_cases(r))
         oks = [r for r in rts if r[0] == 'adt' and r[2] == 'Ok']
+        errs = [r for r in rts if not (r[0] == 'adt' and r[2] == 'Ok')]
+        if 'Duration' not in sty:
+            # every value of these types is valid: the conversion must be total
+            rep.ob(rid, inst + '/accepts-every-value', not errs, b.where(),
+                   'conversion cannot fail' if not errs else
+                   'the conversion rejects some %s values (%s): every value of this type must be rendered' % (sty, [fmt(e)[:80] for e in errs[:2]]))
         if not oks:
             rep.bad(rid, inst, b.where(), 'conversion never succeeds')
             continue
